@@ -36,7 +36,7 @@ func firstUseIDs() []s2.CellID {
 		for _, pat := range []uint64{0x0123456789abcdef, 0x0fedcba987654321, 0x0aaaaaaaaaaaaaaa, 0x0555555555555555, 0x0000000000000000, 0x0fffffffffffffff} {
 			for _, level := range []uint{1, 5, 14, 29, 30} {
 				lsb := uint64(1) << (2 * (30 - level))
-				id := (f<<61 | (pat<<1)&(1<<61-1)) &^ (lsb<<1 - 1) | lsb
+				id := (f<<61|(pat<<1)&(1<<61-1))&^(lsb<<1-1) | lsb
 				ids = append(ids, s2.CellID(id))
 			}
 		}
